@@ -1,7 +1,109 @@
-import TlxVerif.Model.C10Pool
-namespace TlxVerif.C10
+import TlxVerif.Proofs.C10Pool
+/-!
+# C10 — ThreadPool runs each job exactly once; loop_until_empty means quiescence
 
-/-- placeholder while the pipeline is brought up -/
-theorem init_owner (cfg : Cfg) : (init cfg).owner = none := rfl
+All theorems quantify over every reachable state of the transition system in
+`Model/C10Pool.lean`: all interleavings of workers, clients and the main thread,
+every notify_one choice, every spurious wake-up, for every pool size, job table
+(jobs enqueueing jobs, jobs terminating the pool) and call script.
+-/
+namespace TlxVerif.C10
+set_option linter.unusedSimpArgs false
+
+/-- **No job is executed more than once.** The ids of the jobs popped for execution (each pop is followed by
+    exactly one call of the job body in the worker's straight-line code) are pairwise distinct; and every job
+    ever enqueued is either still queued or has been popped — nothing is lost, nothing is duplicated. -/
+theorem pool_job_at_most_once {cfg : Cfg} {s : State} (h : Reachable cfg s) :
+    s.started.Nodup ∧ (s.queue.map (·.id)).Nodup ∧
+    (∀ id, id ∈ s.started → id ∉ s.queue.map (·.id)) ∧
+    (∀ id, id < s.nextId ↔ (id ∈ s.queue.map (·.id) ∨ id ∈ s.started)) := by
+  obtain ⟨hnd, hmem⟩ := reachable_jobsInv h
+  rw [List.nodup_append] at hnd
+  refine ⟨hnd.2.1, hnd.1, ?_, ?_⟩
+  · intro id h1 h2
+    exact hnd.2.2 id h2 id h1 rfl
+  · intro id
+    rw [← hmem id, List.mem_append]
+
+/-- a duplicate-free list whose members are exactly the numbers below `n` has length `n` -/
+theorem length_of_nodup_range {l : List Nat} {n : Nat} (hnd : l.Nodup) (hmem : ∀ id, id ∈ l ↔ id < n) : l.length = n := by
+  have hp : l.Perm (List.range n) :=
+    (List.perm_ext_iff_of_nodup hnd List.nodup_range).mpr (by intro a; rw [hmem a, List.mem_range])
+  rw [hp.length_eq, List.length_range]
+
+/-- **`loop_until_empty` returns only at quiescence.**  Whenever a thread is about to return from
+    `loop_until_empty()` (its pending operation is the final unlock of that call), no job is queued, no job is
+    running (`busy = 0`), every job enqueued so far — from outside or from within another job — has been started
+    exactly once and has finished, and the completed-job counter `done_` equals the number of jobs run.
+    This holds whether or not the pool has been terminated. -/
+theorem pool_loop_until_empty_quiescent {cfg : Cfg} {s : State} (h : Reachable cfg s) {t k : Nat}
+    (hpc : (getT s.thr t).pc = .call k .unlock) (hact : (script cfg (getT s.thr t))[k]? = some .lue) :
+    s.queue = [] ∧ s.busy = 0 ∧ s.started.Nodup ∧
+    (∀ id, id < s.nextId → id ∈ s.started ∧ id ∈ s.finished) ∧
+    s.started.length = s.nextId ∧ s.finished.length = s.nextId ∧ s.done = s.nextId := by
+  have hi := reachable_invB h
+  obtain ⟨hq, hb⟩ := hi.lueQ t k (Or.inr hpc) hact
+  obtain ⟨hnd, hmem⟩ := reachable_jobsInv h
+  rw [hq] at hnd hmem
+  simp only [List.map_nil, List.nil_append] at hnd hmem
+  -- nobody is inside the busy section
+  have hnob : ∀ th, th ∈ s.thr → inBusy th = false := by
+    have := hi.busy
+    rw [hb] at this
+    have hz := List.countP_eq_zero.mp this.symm
+    intro th hth
+    simpa using hz th hth
+  have hrun0 : s.thr.countP running = 0 := by
+    rw [List.countP_eq_zero]
+    intro th hth
+    have := hnob th hth
+    unfold inBusy at this
+    unfold running
+    cases hp : th.pc <;> simp [hp] at this ⊢ <;> simp [this]
+  have hpend0 : s.thr.countP pendDone = 0 := by
+    rw [List.countP_eq_zero]
+    intro th hth
+    have := hnob th hth
+    unfold inBusy at this
+    unfold pendDone
+    cases hp : th.pc <;> simp [hp] at this ⊢
+  have hlen := length_of_nodup_range hnd hmem
+  have hrc := hi.runCnt
+  have hdn := hi.done
+  refine ⟨hq, hb, hnd, ?_, hlen, by omega, by omega⟩
+  intro id hid
+  have hs : id ∈ s.started := (hmem id).mpr hid
+  refine ⟨hs, ?_⟩
+  rcases hi.run id hs with hf | ⟨w, hw, _⟩
+  · exact hf
+  · exfalso
+    have hwl : w < s.thr.length := by
+      apply Classical.byContradiction
+      intro hge
+      have : getT s.thr w = dflt := by
+        unfold getT
+        rw [List.getD_eq_getElem?_getD, List.getElem?_eq_none (by omega)]
+        rfl
+      rw [this] at hw
+      simp [running, dflt] at hw
+    have hmem' : getT s.thr w ∈ s.thr := by rw [← getElem_eq_getT hwl]; exact List.getElem_mem hwl
+    have := List.countP_eq_zero.mp hrun0 _ hmem'
+    simp [hw] at this
+
+/-- the same facts at the moment the wait predicate of `loop_until_empty` was found true (the `fence`) -/
+theorem pool_loop_until_empty_predicate {cfg : Cfg} {s : State} (h : Reachable cfg s) {t k : Nat}
+    (hpc : (getT s.thr t).pc = .call k .fence) (hact : (script cfg (getT s.thr t))[k]? = some .lue) :
+    s.queue = [] ∧ s.busy = 0 :=
+  (reachable_invB h).lueQ t k (Or.inl hpc) hact
+
+/-- **Mutual exclusion**: at most one thread is inside a critical section of the pool mutex, and it is the
+    recorded owner. -/
+theorem pool_mutex {cfg : Cfg} {s : State} (h : Reachable cfg s) {t u : Nat}
+    (ht : holds (getT s.thr t).pc = true) (hu : holds (getT s.thr u).pc = true) : t = u := by
+  have hi := reachable_invB h
+  have h1 := (hi.mutex t).mp ht
+  have h2 := (hi.mutex u).mp hu
+  rw [h1] at h2
+  exact Option.some.inj h2
 
 end TlxVerif.C10
